@@ -1,0 +1,126 @@
+//go:build verif
+
+// Contracts for govc (see /verif/DESIGN.md). This file contains only
+// comments; it is compiled only under the `verif` build tag.
+
+package sio
+
+//@ globalinv CaptainMachine: CaptainMachine == "captain"
+//@ globalinv TimersMachine: TimersMachine == "timers"
+
+// wfCrew: the representation invariant of a Crew after init.
+//@ spec wfCtl(ctl) = ctl != nil ==> ctl.Limit >= 0 && forall id string :: (id in ctl.Breakpoints) ==> ctl.Breakpoints[id] != nil
+//@ spec wfCrew(c) = c != nil && c.Machines != nil && c.changed != nil && c.previous != nil && c.Conf != nil && wfCtl(c.Conf.Ctl) &&
+//@                  forall k string :: (k in c.Machines) ==> c.Machines[k] != nil && c.Machines[k].State != nil && c.Machines[k].State.Bs != nil
+
+//@ spec wfChanged(c) = forall k string :: (k in c.changed) ==> c.changed[k] != nil
+
+//@ iface core.Specter.Spec(recv) returns (s)
+//@   modifies nothing
+//@   ensures s != nil ==> wfSpec(s)
+
+//@ func (*Crew).Logf
+//@   trusted
+//@   pure
+
+//@ func (*Crew).Errorf
+//@   trusted
+//@   pure
+
+//@ func (*Crew).change returns ch
+//@   safety C14, C15
+//@   requires c != nil && c.changed != nil && wfChanged(c)
+//@   modifies c.changed
+//@   ensures wfChanged(c)
+//@   ensures[C15] ch != nil && (mid in c.changed) && c.changed[mid] == ch
+//@   ensures[C15] old(mid in c.changed) ==> ch == old(c.changed[mid])
+//@   ensures[C15] !old(mid in c.changed) ==> fresh(ch) && !ch.Deleted && ch.State == nil && ch.SpecSrc == nil
+//@   ensures[C15] forall k string :: k != mid ==> ((k in c.changed) <==> old(k in c.changed)) && c.changed[k] == old(c.changed[k])
+
+// allMachines: only ordinary machines of the crew, never the two service machines.
+//@ func (*Crew).allMachines returns acc
+//@   safety C14
+//@   requires c != nil
+//@   modifies nothing
+//@   ensures[C14] ordinary: forall i int :: 0 <= i && i < len(acc) ==> (acc[i] in c.Machines) && acc[i] != "timers" && acc[i] != "captain"
+//@   ensures cap(acc) == 0 || fresh(acc)
+//@   loop 0 invariant[C14] forall i int :: 0 <= i && i < len(acc) ==> (acc[i] in c.Machines) && acc[i] != "timers" && acc[i] != "captain"
+//@   loop 0 invariant cap(acc) == 0 || fresh(acc)
+
+//@ func (*Crew).toMachines returns mids, err
+//@   safety C14
+//@   requires c != nil
+//@   modifies nothing
+//@   ensures[C14] noerr: err == nil
+//@   ensures[C14] single: is(msg, map[string]interface{}) && ("to" in as(msg, map[string]interface{})) && is(as(msg, map[string]interface{})["to"], string) && as(as(msg, map[string]interface{})["to"], string) != "*"
+//@                        ==> len(mids) == 1 && mids[0] == as(as(msg, map[string]interface{})["to"], string)
+//@   ensures[C14] listlen: is(msg, map[string]interface{}) && ("to" in as(msg, map[string]interface{})) && is(as(msg, map[string]interface{})["to"], []interface{})
+//@                        ==> len(mids) == len(as(as(msg, map[string]interface{})["to"], []interface{}))
+//@   loop 0 invariant fresh(mids) && len(mids) == len(vv)
+
+// RunMachine is called at most once per machine id within one RunMachines
+// (ghost set `delivered`, owned by RunMachines).
+//@ func (*Crew).RunMachine returns walked, err
+//@   safety C14, C15
+//@   requires wfCrew(c) && wfChanged(c) && m != nil && m.State != nil && m.State.Bs != nil
+//@   requires[C14] once: !ghostin(delivered, m.Id)
+//@   ghostadd delivered m.Id
+//@   modifies m, c.changed, c.changed[m.Id]
+//@   writes m, c.changed, c.changed[m.Id], m.State.Bs
+//@   ensures err == nil ==> walked != nil
+//@   ensures wfChanged(c) && m.State != nil && m.State.Bs != nil && m.Id == old(m.Id)
+//@   ensures[C15] applied: err == nil ==> (m.State == old(m.State) || (fresh(m.State) && (m.Id in c.changed) && c.changed[m.Id].State != nil && c.changed[m.Id].State.NodeName == m.State.NodeName))
+
+// ---- crew bookkeeping (C15) ----
+
+//@ func (*Crew).NewTimersSpec returns s
+//@   trusted
+//@   modifies nothing
+//@   ensures s != nil && fresh(s)
+
+//@ func (*Crew).NewCaptainSpec returns s
+//@   trusted
+//@   modifies nothing
+//@   ensures s != nil && fresh(s)
+
+//@ func (*Timers).withMap returns err
+//@   trusted
+//@   modifies ts
+
+//@ func (*Timers).Start returns err
+//@   trusted
+//@   modifies ts
+
+// ResolveSpecSource (JSON round trip of the source, compilation or download of the spec): trusted.
+//@ func ResolveSpecSource returns ss, spec, err
+//@   trusted
+//@   modifies nothing
+//@   ensures err == nil && ss != nil ==> fresh(ss)
+
+//@ spec ordinary(mid) = mid != "timers" && mid != "captain"
+
+//@ func (*Crew).SetMachine returns err
+//@   safety C15
+//@   requires wfCrew(c) && wfChanged(c) && c.timers != nil
+//@   requires state != nil ==> fresh(state) || true
+//@   ensures[C15] exists: err == nil ==> (mid in c.Machines) && c.Machines[mid] != nil && c.Machines[mid].State != nil && c.Machines[mid].State.Bs != nil
+//@   ensures[C15] applied: err == nil && ordinary(mid) && state != nil ==> c.Machines[mid].State == state
+//@   ensures[C15] reported: ordinary(mid) && state != nil ==> (mid in c.changed) && c.changed[mid] != nil && c.changed[mid].State == state
+//@   ensures[C15] srcreported: ordinary(mid) && src != nil ==> (mid in c.changed) && c.changed[mid] != nil && c.changed[mid].SpecSrc == src
+//@   ensures[C15] recreated: err == nil && ordinary(mid) && (mid in c.changed) ==> c.changed[mid] != nil && !c.changed[mid].Deleted
+//@   ensures[C15] others: forall k string :: k != mid ==> ((k in c.Machines) <==> old(k in c.Machines)) && c.Machines[k] == old(c.Machines[k])
+
+//@ func (*Crew).DeleteMachine returns err
+//@   safety C15
+//@   requires wfCrew(c) && wfChanged(c)
+//@   modifies c.Machines, c.changed, c.changed[mid]
+//@   ensures[C15] gone: !(mid in c.Machines) && (mid in c.changed) && c.changed[mid] != nil && c.changed[mid].Deleted
+//@   ensures[C15] others: forall k string :: k != mid ==> ((k in c.Machines) <==> old(k in c.Machines)) && c.Machines[k] == old(c.Machines[k])
+//@   ensures wfChanged(c)
+
+//@ func (*Crew).RunMachines returns acc, err
+//@   safety C14
+//@   ghostset delivered
+//@   requires wfCrew(c) && wfChanged(c)
+//@   ensures[C14] noerr: err == nil && acc != nil
+//@   loop 0 invariant wfCrew(c) && wfChanged(c)
